@@ -1091,7 +1091,7 @@ def _selfcheck_oracle():
 
 def extra_coverage(results=None):
     out = dict(_SELFCHECK)
-    out['exhaustive'] = dict(
+    out['exhaustive_subspaces'] = dict(
         what='all schedules (DFS, state caching) of the catalogue programs: 2 threads, <=2 requests each (sequential or nested), one file',
         one_process='quick: all 1-vs-1 and 1-vs-2 request programs + every %dth 2-vs-2 program; thorough: whole catalogue (1378 programs)' % QUICK_22_STRIDE,
         two_processes='quick: all 1-vs-1 and 1-vs-2 request programs + every %drd 2-vs-2 program; thorough: whole catalogue' % QUICK_22_STRIDE_2PROC,
